@@ -40,6 +40,8 @@ type Stats struct {
 	H6Active       bool   `json:"h6_active"`
 	Pauses         int    `json:"receiver_pauses"`
 	DupBatches     int    `json:"duplicated_batches"`
+	Directed       int    `json:"directed_full_buffer_cases"`
+	ParkedCommits  int    `json:"commits_completed_while_receiver_parked"`
 	Events         int    `json:"events"`
 	OrderSig       string `json:"-"`
 	AbortSig       string `json:"-"`
@@ -102,6 +104,7 @@ func judge(c *Case, evs []Ev) (fs []Finding, st Stats, conclusive bool, problems
 	senderExit := make([]bool, c.NS)
 	recvDone := make([]bool, c.NR)
 	quiesced, pxIdle, ended := false, false, false
+	releaseSeq, releaseReason, releaseCDs := inf, "", 0 // directed full-buffer scenario
 	var orderSig []string
 	abortSig := map[string]int{}
 
@@ -126,6 +129,8 @@ func judge(c *Case, evs []Ev) (fs []Finding, st Stats, conclusive bool, problems
 			ended = true
 		case e.K == "overrun" || e.K == "overflow":
 			problems = append(problems, "runaway case stopped early ("+e.K+")")
+		case e.K == "release":
+			releaseSeq, releaseReason, releaseCDs = e.Seq, e.Txt, e.N
 		case e.K == "quiesce":
 			quiesced, pxIdle = true, e.N == 1
 		case e.K == "log":
@@ -219,6 +224,43 @@ sendersChecked:
 	}
 	for r := range recvDone {
 		complete = complete && recvDone[r]
+	}
+
+	// ---- directed full-buffer scenario: nobody reads, nothing delays an ack (no proxy, no H6, write timeout of
+	// seconds). A full receive buffer may only make the NEXT section's pre-commit wait; a section whose pre-commit
+	// was acknowledged must complete its Commit while the receiver is still parked. The controller released the
+	// receiver only after it saw buffer+1 commits complete or a commit-phase network error logged by the sender.
+	commitBlocked := false
+	if c.Directed == "fullbuf" {
+		st.Directed = 1
+		var blockedAt []linkEv
+		for _, les := range commitErrs {
+			for _, le := range les {
+				if le.seq < releaseSeq {
+					blockedAt = append(blockedAt, le)
+				}
+			}
+		}
+		switch {
+		case releaseSeq == inf || releaseReason == "watchdog":
+			problems = append(problems, "directed full-buffer case: neither buffer+1 commits nor a commit-phase error were observed")
+		case len(blockedAt) > 0:
+			commitBlocked = true
+			var open []string
+			for s := range secs {
+				for i, si := range secs[s] {
+					if si.cp < releaseSeq && si.cd > releaseSeq {
+						open = append(open, fmt.Sprintf("S%d section %d (pre-commit acknowledged at %d)", s, i, si.cp))
+					}
+				}
+			}
+			addK("commit-blocked-by-full-receive-buffer",
+				fmt.Sprintf("receiver parked with a full receive buffer (size %d), no injected ack delay, write timeout %d ms: after %d commits had completed, the Commit of %v did not complete - the sender logged a commit-phase network error while the receiver was still parked (a full buffer must only abort the section in flight, not hold back the ack of an accepted commit)", c.ChanSize, c.WriteMs, releaseCDs, open),
+				map[string]any{"chan_size": c.ChanSize, "write_ms": c.WriteMs, "commits_completed_while_parked": releaseCDs,
+					"release_seq": releaseSeq, "commit_phase_errors_before_release": len(blockedAt), "sections_in_commit": open})
+		default:
+			st.ParkedCommits = releaseCDs
+		}
 	}
 
 	// sent_committed per link, in commit order, and the batch of every committed (section, destination)
@@ -491,6 +533,10 @@ sendersChecked:
 					}, batches)
 				detail["duplicated"] = trimIDs(dups)
 				st.DupBatches++
+				if commitBlocked {
+					// the duplicates of this case come from commits held back by the full buffer, not from an ack-path delay
+					key = "commit-blocked-by-full-receive-buffer"
+				}
 				addK(key, desc, detail)
 			}
 		}
